@@ -48,3 +48,17 @@ Proof. destruct b; simpl; intro H; [discriminate|]. injection H as <-. auto. Qed
 Definition orelse {W} (a b : option W) : option W := match a with Some w => Some w | None => b end.
 Lemma orelse_none {W} (a b : option W) : orelse a b = None <-> a = None /\ b = None.
 Proof. destruct a, b; simpl; split; intro H; try tauto; try discriminate; destruct H; discriminate. Qed.
+
+Lemma existsb_ext_in {A} (f g : A -> bool) (l : list A) :
+  (forall x, In x l -> f x = g x) -> existsb f l = existsb g l.
+Proof.
+  induction l as [|x r IH]; simpl; intro H; [reflexivity|].
+  rewrite (H x (or_introl eq_refl)), IH; [reflexivity|]. intros y Hy. apply H. auto.
+Qed.
+
+Lemma forallb_ext_in {A} (f g : A -> bool) (l : list A) :
+  (forall x, In x l -> f x = g x) -> forallb f l = forallb g l.
+Proof.
+  induction l as [|x r IH]; simpl; intro H; [reflexivity|].
+  rewrite (H x (or_introl eq_refl)), IH; [reflexivity|]. intros y Hy. apply H. auto.
+Qed.
